@@ -264,7 +264,11 @@ carquet_status_t carquet_read_dictionary_page(
         }
     } else {
         /* Fixed size values */
-        size_t dict_size = value_size * header->num_values;
+        size_t dict_size = value_size * (size_t)header->num_values;
+        if (dict_size > page_size) {
+            CARQUET_SET_ERROR(error, CARQUET_ERROR_DECODE, "Truncated dictionary");
+            return CARQUET_ERROR_DECODE;
+        }
         reader->dictionary_data = malloc(dict_size);
         if (!reader->dictionary_data) {
             CARQUET_SET_ERROR(error, CARQUET_ERROR_OUT_OF_MEMORY, "Failed to allocate dictionary");
